@@ -288,6 +288,13 @@ func c10(r *vlib.Run) int {
 			fmt.Fprintf(&b, "line %d of a file without any mapreduce table 2026-10-05 user%d\n", k, k%13)
 		}
 		os.WriteFile(filepath.Join(dir, "lines3000.log"), b.Bytes(), 0644)
+		// a file in which every line has a group key of its own (mapreduce sessions over it run for several report
+		// intervals with tens of thousands of groups)
+		var u bytes.Buffer
+		for k := 0; k < 150000; k++ {
+			fmt.Fprintf(&u, "id=u%06d|v=%d|w=1\n", k, k%97)
+		}
+		os.WriteFile(filepath.Join(dir, "uniq150000.log"), u.Bytes(), 0644)
 	}
 	var broken []string
 	for _, ext := range []string{".gz", ".zst"} {
@@ -361,6 +368,15 @@ func c10(r *vlib.Run) int {
 				"map select $line,count($line) from STATS group by $line set $z = md5sum($line) logformat " + f + " interval 1",
 			}[(i/c10Batch/len(formats)+k)%4]
 			inputs[i] = c10Input{Hex: fmt.Sprintf("%x", encodeCommand(q)+encodeCommand("cat "+dir+"/lines3000.log regex:noop ")), Class: "valid-sequence/map-logformat-" + f + ",cat-until-done"}
+		}
+	}
+	// sessions whose mapreduce lasts several report intervals (interval 1) over tens of thousands of groups: the
+	// periodic report and the aggregation work on the same groups for seconds
+	for i := range inputs {
+		if k := i % c10Batch; k == c10Batch-9 && i >= c10Batch {
+			q := []string{"map select count(id),sum(v) group by id interval 1 limit 3 logformat generickv",
+				"map select id,count(id),max(v),last(w) group by id order by count(id) interval 1 logformat generickv"}[(i/c10Batch)%2]
+			inputs[i] = c10Input{Hex: fmt.Sprintf("%x", encodeCommand(q)+encodeCommand("cat "+dir+"/uniq150000.log regex:noop ")), Class: "valid-sequence/map-many-groups-several-intervals,cat-until-done"}
 		}
 	}
 	cases := make([]interface{}, len(inputs))
